@@ -499,6 +499,23 @@ def linear_forward(chk, helper_nodes):
                                 okp = val.balanced()
                                 chk.require("C07.R2", site, okp, f"QTensorLinear.forward ({what}): payloads {sorted(val.codes)} matched by scales {list(val.scales)}", "QTensorLinear.forward", "linear payload/scale pairing",
                                             "a quantized activation with a per-tensor scale: the output is off by the activation scale (invisible to cosine similarity)")
+    # a rank-1 quantized weight (the float program returns input.shape[:-1]): the kernels assume a matrix, so the dispatcher must not hand it over
+    if chk.pid == "C05":
+        for r in ranks:
+            for in_kind in ("float", "quantized"):
+                xl = batch(r) + (L("in"),)
+                x = Q(xl, None, (), "input") if in_kind == "quantized" else T(xl, "float", "input")
+                wq = Q((L("in"),), None, (), "other")
+                what = f"{in_kind} rank-{r + 1} input, rank-1 per-tensor weight"
+                site = f"{mi.rel}:{fwd.lineno}"
+                for status, val, trace in typed(x, wq, None):
+                    if status == "typeerr":
+                        chk.bad("C07.R1", site, "QTensorLinear.forward", f"QTensorLinear.forward: rank-1 weight: {_gen(val)}", f"QTensorLinear.forward ({what}): {val}", what)
+                    elif status == "unknown":
+                        chk.unknown("C07.R1", site, f"QTensorLinear.forward ({what}): {val}")
+                    elif status == "ok":
+                        n += 1
+                        chk.require("C07.R1", site, isinstance(val, T) and val.labels == tuple(batch(r)), f"QTensorLinear.forward ({what}) returns {val}", "QTensorLinear.forward", "linear result labels (rank-1 weight)", what)
     # weights that are neither QBytes nor AWQ (packed low-bit weights, plain tensors) take the float matmul route
     for r in ranks:
         for has_bias in (True, False):
